@@ -1,3 +1,4 @@
+import T4V.Num
 /-!
 # Hexagonal lattices (model): the vertex traversal of `Lattice.hexVertices` and the base vectors of
 `hexLatticeBaseVectors`
@@ -54,5 +55,18 @@ def arrangements (first : Nat) : List (List Nat) :=
   let others := (List.range 6).filter fun s => s != first && s != opp first
   others.flatMap fun x =>
     (others.filter fun y => y != x && y != opp x).map fun y => [first, x, y, opp first, opp x, opp y]
+
+section
+variable {α : Type} [Add α] [Sub α] [Mul α] [Div α] [Neg α] [OfNat α 0] [OfNat α 1]
+
+/-- `VectUtils.projectPointOnPlane(point, (pl_pt, normal), direction)` -/
+def projectPointOnPlane (point plPt normal dir : V3 α) : V3 α :=
+  point.add (V3.smul ((plPt.sub point).dot normal / dir.dot normal) dir)
+
+/-- `hexLatticeBaseVectors`, third vector (eight planes): the first vertex projected along the prism axis on the
+seventh-listed plane, minus its projection on the eighth-listed one -/
+def hexAxialVector (v p7 n7 p8 n8 axis : V3 α) : V3 α :=
+  (projectPointOnPlane v p7 n7 axis).sub (projectPointOnPlane v p8 n8 axis)
+end
 
 end T4V
